@@ -523,6 +523,16 @@ func runCheck(prop, repo, verif, tier, only string, updateBaseline, verbose, noE
 	// belongs to is compared with its verified predecessor (equiv.go). Obligations of functions
 	// shown equivalent are carried over (reported, never counted as proved, no violation).
 	carried := map[string]*equivResult{}
+	func() {
+		// whatever goes wrong inside the fallback, the verdicts of the run itself stand
+		defer func() {
+			if r := recover(); r != nil {
+				fmt.Fprintf(os.Stderr, "equivalence fallback unavailable (internal error: %v)\n", r)
+				for k := range carried {
+					delete(carried, k)
+				}
+			}
+		}()
 	if os.Getenv("VERIF_NO_EQUIV") == "" {
 		contractOf := func(name string) *Contract {
 			var best *Contract
@@ -629,6 +639,7 @@ func runCheck(prop, repo, verif, tier, only string, updateBaseline, verbose, noE
 			ck.close()
 		}
 	}
+	}()
 	carriedLine := func(name string, r *equivResult) string {
 		how := "equivalent to its verified predecessor on every path"
 		if r.Status == "bounded-equivalent" {
